@@ -12,8 +12,8 @@ func init() { register("C13", propC13) }
 
 func propC13() *Property {
 	return &Property{
-		ID:      "C13",
-		Decides: "R13.1 nextRecv is advanced only by one, only in moveRecvBufToRecvQueue, only after the segment whose sequence number equals nextRecv was inserted into recvQueue; R13.2 every cumulative ack written into outgoing metadata is a fresh load of nextRecv; R13.3 sendBuf entries are deleted only under seq < peer's unAckSeq (or wholesale at close), and a new segment is inserted into sendBuf before its first transmission; R13.4 the identity fields of a segment (payload, metadata, transport; protocol, sessionID, seq, fragment, payload lengths, low-entropy mode/rotation, status) are assigned only at construction or in Unmarshal; R13.5 every nextSend.Add(1) is paired, under oLock, with a segment whose seq is the nextSend.Load() of the same critical section.",
+		ID:         "C13",
+		Decides:    "R13.1 nextRecv is advanced only by one, only in moveRecvBufToRecvQueue, only after the segment whose sequence number equals nextRecv was inserted into recvQueue; R13.2 every cumulative ack written into outgoing metadata is a fresh load of nextRecv; R13.3 sendBuf entries are deleted only under seq < peer's unAckSeq (or wholesale at close), and a new segment is inserted into sendBuf before its first transmission; R13.4 the identity fields of a segment (payload, metadata, transport; protocol, sessionID, seq, fragment, payload lengths, low-entropy mode/rotation, status) are assigned only at construction or in Unmarshal; R13.5 every nextSend.Add(1) is paired, under oLock, with a segment whose seq is the nextSend.Load() of the same critical section.",
 		NotDecided: "the comparison of emitted acks with the set of datagrams actually delivered (needs a network history); 32-bit sequence wrap-around; what btree.ReplaceOrInsert does with equal keys.",
 		Rules: []Rule{
 			{ID: "R13.1", Floor: 1, Text: "Session.nextRecv: the only writer is Add(1) in moveRecvBufToRecvQueue, dominated by a successful recvQueue.Insert of the segment taken from recvBuf under seq <= nextRecv and not skipped by seq < nextRecv", Run: r13_1},
